@@ -2,7 +2,7 @@
 //! real function directly) and C18 (behaviour independent of layout / routing / other mocks).
 
 use crate::ctx::*;
-use crate::fine::{describe_call, Desc};
+use crate::fine::{describe_call, route_free, Desc};
 use crate::gen::*;
 use crate::oracle::{final_ops, v, Violation};
 use crate::props::{base_stats, Checked, RunStats};
@@ -287,6 +287,48 @@ pub fn check_c15(scn: &Scenario) -> Checked {
         stats.nontrivial = !delegated.is_empty();
         return Checked { violations, stats, harness_error: None };
     }
+    // the verdict, from the actual state (no twin involved): helpers - also the helpers of helpers that
+    // re-entrant default bodies create - are not clones the user made, and an instance that a by-value
+    // call consumed is verified where it ends, inside that call
+    if violations.is_empty() && scn.threads.len() == 1 {
+        let flat = scn.config.flatten();
+        let expect_fail = |snap: &Snap| {
+            let (p, m) = crate::oracle::unmet(&flat, snap);
+            !snap.errors.is_empty() || !p.is_empty() || !m.is_empty()
+        };
+        if let Some((o, op)) = final_ops(scn, &res).last() {
+            if let Some(pre) = &o.pre {
+                let failed = matches!(o.result, OpResult::Panicked(_) | OpResult::ExitCode(false));
+                if expect_fail(pre) != failed {
+                    violations.push(v(
+                        "C15",
+                        "verdict-follows-the-counts",
+                        format!("{:?}", std::mem::discriminant(*op)),
+                        format!("after calls through default bodies the original has recorded errors {:?} and counts {:?}: verification should {}, but {:?}", pre.errors, pre.counts, if expect_fail(pre) { "fail" } else { "pass" }, o.result),
+                    ));
+                }
+            }
+        }
+        for (c, p) in &delegated {
+            let unique = !matches!(scn.threads[c.op.0 as usize].get(c.op.1 as usize), Some(Op::Call { keep: true, .. }));
+            let consuming = matches!(c.m.info().recv, Recv::Val) || (matches!(c.m.info().recv, Recv::Rc | Recv::Arc) && unique);
+            let on_original = matches!(scn.threads[c.op.0 as usize].get(c.op.1 as usize), Some(Op::Call { slot: 0, .. }));
+            if !consuming || !on_original || !p.finished {
+                continue;
+            }
+            // the state at the end of the call: after the last evaluation inside it
+            let Some(last) = res.log.calls.iter().rev().find(|x| x.op == c.op).and_then(|x| x.post.as_ref()) else { continue };
+            let failed = matches!(c.outcome, Some(Outcome::MockPanic(_)));
+            if matches!(c.outcome, Some(Outcome::Value(_)) | Some(Outcome::MockPanic(_))) && expect_fail(last) != failed {
+                violations.push(v(
+                    "C15",
+                    "consumed-instance-verified-at-the-end-of-the-call",
+                    format!("{:?}:model", c.m),
+                    format!("{:?} consumed the original; at its end the recorded errors were {:?} and the counts {:?}: its verification should {}, but the call ended with {:?}", c.m, last.errors, last.counts, if expect_fail(last) { "fail" } else { "pass" }, c.outcome),
+                ));
+            }
+        }
+    }
     // (deep-recursion runs are judged call by call only: the harness's own cut-off is counted in
     // nesting levels of user programs, which a twin without the delegating level reaches one call later)
     if !violations.is_empty() || scn.threads.len() != 1 || scn.knob("max_depth").is_some() {
@@ -355,7 +397,7 @@ pub fn check_c15(scn: &Scenario) -> Checked {
             Desc::MockPanic(m) if matches!(a.m.info().recv, Recv::Val | Recv::Rc | Recv::Arc) => Some(filter_lines(m, &provided_all)),
             _ => None,
         };
-        let same = da == db
+        let same = route_free(&da) == route_free(&db)
             || match (by_value_end(&da), by_value_end(&db)) {
                 (Some(x), Some(y)) => x == y,
                 (None, Some(y)) => y.is_empty() && !matches!(da, Desc::MockPanic(_)),
@@ -657,6 +699,24 @@ pub fn check_c16(scn: &Scenario) -> Checked {
         if p.finished && c.outcome != Some(Outcome::Value(VAL_PROG | p.inv)) && !(drops_inside && matches!(c.outcome, Some(Outcome::MockPanic(_)))) {
             violations.push(v("C16", "result-returned-unchanged", key.clone(), format!("the real function returned {:#x}, the caller got {:?}", VAL_PROG | p.inv, c.outcome)));
         }
+        // a real function that owns the original and lets go of it verifies it right there: by the
+        // state at that moment, like any other verification (nobody cloned anything in this world)
+        let on_original = matches!(scn.threads[c.op.0 as usize].get(c.op.1 as usize), Some(Op::Call { slot: 0, .. }));
+        if p.finished && drops_inside && on_original && c.parent.is_none() {
+            if let Some(last) = res.log.calls.iter().rev().find(|x| x.op == c.op).and_then(|x| x.post.as_ref()) {
+                let (up, um) = crate::oracle::unmet(&flat, last);
+                let expect_fail = !last.errors.is_empty() || !up.is_empty() || !um.is_empty();
+                let failed = matches!(c.outcome, Some(Outcome::MockPanic(_)));
+                if matches!(c.outcome, Some(Outcome::Value(_)) | Some(Outcome::MockPanic(_))) && expect_fail != failed {
+                    violations.push(v(
+                        "C16",
+                        "owned-instance-verified-where-the-real-function-drops-it",
+                        key.clone(),
+                        format!("the real function of {:?} owned the original and dropped it; recorded errors {:?}, counts {:?}: that verification should {}, but the call ended with {:?}", c.m, last.errors, last.counts, if expect_fail { "fail" } else { "pass" }, c.outcome),
+                    ));
+                }
+            }
+        }
         probe(&mut stats, "call_resolved_to_real_function");
         if c.parent.is_some() {
             probe(&mut stats, "recursion_through_the_mock");
@@ -795,7 +855,7 @@ pub fn check_c16(scn: &Scenario) -> Checked {
         let pa = res.log.progs.iter().find(|p| Some(p.inv) == c.prog);
         let na: Vec<Desc> = pa.map(|p| p.nested.iter().map(|id| describe_call(&res.log, &res.log.calls[*id as usize])).collect()).unwrap_or_default();
         let nb: Vec<Desc> = res_b.log.calls.iter().filter(|x| x.op == (0, *bi as u16) && x.parent.is_none()).map(|x| describe_call(&res_b.log, x)).collect();
-        if na != nb {
+        if na.iter().map(route_free).collect::<Vec<_>>() != nb.iter().map(route_free).collect::<Vec<_>>() {
             violations.push(v(
                 "C16",
                 "re-entrant-calls-evaluated-by-the-same-mock",
@@ -1267,11 +1327,12 @@ pub fn check_c15_fmt(scn: &Scenario) -> Checked {
         let mut clauses: Vec<DynClause> = vec![];
         let dbg = {
             let c = counter.clone();
-            Arc::new(move |_: &Unimock, f: &mut std::fmt::Formatter<'_>| write!(f, "D{}", c.fetch_add(1, Ordering::SeqCst)))
+            // (the answers honour what the formatter was asked for: alternate flag, width, alignment)
+            Arc::new(move |_: &Unimock, f: &mut std::fmt::Formatter<'_>| write!(f, "D{}{}", if f.alternate() { "#" } else { "" }, c.fetch_add(1, Ordering::SeqCst)))
         };
         let disp = {
             let c = counter.clone();
-            Arc::new(move |_: &Unimock, f: &mut std::fmt::Formatter<'_>| write!(f, "S{}", c.fetch_add(1, Ordering::SeqCst)))
+            Arc::new(move |_: &Unimock, f: &mut std::fmt::Formatter<'_>| f.pad(&format!("S{}", c.fetch_add(1, Ordering::SeqCst))))
         };
         if ordered {
             for _ in 0..n {
@@ -1298,7 +1359,7 @@ pub fn check_c15_fmt(scn: &Scenario) -> Checked {
             let c = if via_clone { Some(u.clone()) } else { None };
             let target: &Unimock = c.as_ref().unwrap_or(&u);
             for x in &xs {
-                let r = std::panic::catch_unwind(std::panic::AssertUnwindSafe(|| if delegated { target.show(*x) } else { format!("{x}:{:?}|{}", target, target) }));
+                let r = std::panic::catch_unwind(std::panic::AssertUnwindSafe(|| if delegated { target.show(*x) } else { crate::corpus::fmt_show(target, *x) }));
                 outs.push(match r {
                     Ok(s) => s,
                     Err(p) => format!("panic: {:?}", classify_panic(p.as_ref())),
